@@ -161,9 +161,13 @@ def keep_names():
 class Ctx:
     """collects rule instances (obligations) of one property check"""
 
-    def __init__(self, prop, P, tier, repo):
+    def activate(self):
         from .core import norm as _norm
-        _norm.set_default(P, keep_names())
+        _norm.set_default(self.P, keep_names())
+
+    def __init__(self, prop, P, tier, repo):
+        self.P = P
+        self.activate()
         self.prop = prop
         self.P = P
         self.tier = tier
@@ -204,7 +208,7 @@ class Ctx:
     def bad(self, rule, key, site="", detail=""):
         if self._filter is not None and not self._filter(key) and not key.startswith("missing-anchor"):
             return
-        self.instances.append({"rule": rule, "key": key, "site": self.rel(site), "ok": False, "detail": str(detail)[:1500]})
+        self.instances.append({"rule": rule, "key": key, "site": self.rel(site), "ok": False, "detail": str(detail)[:8000]})
 
     def expect(self, cond, rule, key, site="", ok_detail="", bad_detail=""):
         if cond:
